@@ -27,6 +27,14 @@ ASSUMPTIONS = ["inputs are WFstd tensors; marginal vectors are non-negative floa
                "masks have shape 2^N; Boolean masks are built with the documented logic/automata constructors"]
 
 
+def diff_tree(f, f2):
+    return ["and", f2, ["not", f]]
+
+
+def union_tree(f, f2):
+    return ["or", f, diff_tree(f, f2)]
+
+
 def cases(rng, tier):
     n = {"quick": 170, "thorough": 3000, "search": 850}[tier]
     out = []
@@ -39,9 +47,14 @@ def cases(rng, tier):
         stream = "int" if rng.random() < 0.5 else "float"
         t = gen_tensor(rng, shape, stream=stream)
         wm = gen_tensor(rng, [2] * N, rmax=2, stream="int") if rng.random() < 0.3 else None
+        mround = rng.random() < 0.3
+        while True:   # un-rounded masks: keep the formal TT rank of the largest mask (the union used for additivity) moderate
+            fo, fo2 = L.rnd_tree(rng, N, rng.randint(1, 3)), L.rnd_tree(rng, N, rng.randint(1, 2))
+            if L.pred_rank(union_tree(fo, fo2)) <= 250:
+                break
         out.append({"t": t.to_json(), "stream": stream, "marginals": gen_marginals(rng, shape, p_none=0.25, p_zero=0.2),
-                    "formula": L.rnd_tree(rng, N, rng.randint(1, 3)), "formula2": L.rnd_tree(rng, N, rng.randint(1, 2)),
-                    "mask_round": rng.random() < 0.3, "var": rng.randrange(N), "k": rng.randint(1, N), "order": rng.randint(1, N),
+                    "formula": fo, "formula2": fo2,
+                    "mask_round": mround, "var": rng.randrange(N), "k": rng.randint(1, N), "order": rng.randint(1, N),
                     "wmask": None if wm is None else wm.to_json(), "dd": "float32" if rng.random() < 0.08 else "float64"})
     return out
 
@@ -84,11 +97,15 @@ def run_case(ctx, case):
     X = L.grid(N)
     tt = t.to_tn()
     before = from_tn(tt)
-    state = {"sobol_modifies": False}
+    state = {"modified_reported": False, "f32_reported": False}
+
+    def base(op):
+        return op.split("(")[0]
 
     def fail(op, what, predicate=None):
+        """cls names the function (variants such as normalize=False / mask / order only appear in the message)"""
         ctx.count("fail:" + op)
-        ctx.oracle("%s: %s" % (op, what), case, cls={"op": op, "predicate": predicate or pcls})
+        ctx.oracle("%s: %s" % (op, what), case, cls={"op": base(op), "predicate": predicate or pcls})
 
     def call(op, fn, mextra=""):
         """fn(marginals) on fresh copies of the marginals; reports raises, modified marginals, modified tensor"""
@@ -96,39 +113,46 @@ def run_case(ctx, case):
         marg0 = to_torch_marginals(case["marginals"])
         r = with_dd(dd, lambda: safe(lambda: fn(marg)))
         if marg is not None and any(m is not None and not torch.equal(m, m0) for m, m0 in zip(marg, marg0)):
-            base = op.split("(")[0]
-            if base == "sobol":
-                state["sobol_modifies"] = True
-            if base == "sobol" or not state["sobol_modifies"]:
-                ctx.count("fail:%s modifies marginals" % base)
-                ctx.oracle("%s modified the caller's marginal vectors (normalised them in place)" % base, case,
-                           cls={"op": base, "predicate": "marginals that do not sum to 1: the caller's arrays are normalised in place"
-                                + (", default dtype float32" if dd == "float32" else "")})
-            else:
-                ctx.count("marginals modified through sobol (%s)" % base)
+            ctx.count("marginals modified by " + op)
+            # every entry point goes through sobol: one report per case, attributed to the first entry point seen modifying
+            if not state["modified_reported"]:
+                state["modified_reported"] = True
+                ctx.oracle("%s modified the caller's marginal vectors (normalised them in place)" % op, case,
+                           cls={"op": base(op), "predicate": "marginals that do not sum to 1: the caller's arrays are normalised in place"})
         if cmp_struct(from_tn(tt), before, True) is not None:
-            fail(op + " (operand)", "modified the cores/factors of its tensor operand")
+            fail(op, "modified the cores/factors of its tensor operand", "tensor operand modified; " + pcls)
         if r[0] == "err":
             ctx.count("impl_raise:%s:%s" % (op, r[1]))
-            ctx.oracle("%s raised %s: %s" % (op, r[1], r[2]), case, cls={"op": op, "predicate": pcls + mextra + " (raises %s)" % r[1]})
+            if dd == "float32":
+                if not state["f32_reported"]:     # one report per case: every later call fails for the same reason
+                    state["f32_reported"] = True
+                    ctx.oracle("%s raised %s: %s" % (op, r[1], r[2]), case, cls={"op": base(op), "predicate": pcls + " (raises %s)" % r[1]})
+            else:
+                ctx.oracle("%s raised %s: %s" % (op, r[1], r[2]), case, cls={"op": base(op), "predicate": pcls + mextra + " (raises %s)" % r[1]})
             return None
         return r[1]
 
     def num(v):
         return as_np(v)
 
-    def check(op, got, exp, mextra=""):
+    def agrees(g, e, sc=1.0):
+        return g.shape == e.shape and bool(np.all(np.isfinite(g))) and \
+            float(np.max(np.abs(g - e), initial=0.0)) <= tol * max(sc, float(np.max(np.abs(e), initial=0.0)))
+
+    def check(op, got, exp, mextra="", pred=None, sc=1.0):
+        """pred: optional thunk giving the class predicate (differential diagnosis, evaluated only on failure)"""
         if got is None:
             return False
         g = num(got)
         e = np.asarray(exp, dtype=np.float64)
+        if agrees(g, e, sc):
+            return True
+        p = pred() if pred is not None else pcls + mextra
         if g.shape != e.shape:
-            fail(op, "result has shape %s, expected %s" % (g.shape, e.shape), pcls + mextra)
-            return False
-        if not np.all(np.isfinite(g)) or float(np.max(np.abs(g - e), initial=0.0)) > tol * max(1.0, float(np.max(np.abs(e), initial=0.0))):
-            fail(op, "got %s, brute-force value %s" % (np.array2string(g, precision=10), np.array2string(e, precision=10)), pcls + mextra)
-            return False
-        return True
+            fail(op, "result has shape %s, expected %s" % (g.shape, e.shape), p)
+        else:
+            fail(op, "got %s, brute-force value %s" % (np.array2string(g, precision=10), np.array2string(e, precision=10)), p)
+        return False
 
     def weighted(tab):
         """sum_S mask(S) D_S over non-empty S, mask given as an array of shape 2^N"""
@@ -146,9 +170,8 @@ def run_case(ctx, case):
     n0, k = case["var"], case["k"]
     S_sizes = sum(xx.astype(int) for xx in X)
     masks = [("formula", lambda: formula_mask(case["formula"], case["mask_round"]), f1.astype(float), True),
-             ("formula2 & ~formula", lambda: formula_mask(["and", case["formula2"], ["not", case["formula"]]], case["mask_round"]), f2.astype(float), True),
-             ("formula | (formula2 & ~formula)", lambda: formula_mask(["or", case["formula"], ["and", case["formula2"], ["not", case["formula"]]]],
-                                                                     case["mask_round"]), (f1 | f2).astype(float), True),
+             ("formula2 & ~formula", lambda: formula_mask(diff_tree(case["formula"], case["formula2"]), case["mask_round"]), f2.astype(float), True),
+             ("formula | (formula2 & ~formula)", lambda: formula_mask(union_tree(case["formula"], case["formula2"]), case["mask_round"]), (f1 | f2).astype(float), True),
              ("x_n", lambda: tn.symbols(N)[n0], X[n0].astype(float), True),
              ("only(x_n)", lambda: tn.only(tn.symbols(N)[n0]), (X[n0] & (S_sizes == 1)).astype(float), True),
              ("any(N)", lambda: tn.any(N), (S_sizes >= 1).astype(float), True),
@@ -164,22 +187,32 @@ def run_case(ctx, case):
             ctx.count("mask_unusable:" + name)     # Boolean formulas / automata are C15/C16's business
             continue
         mask = mres[1]
-        mextra = "; mask " + ("hybrid-format weighting tensor" if name == "weighting tensor" else
-                              ("with Tucker factors (e.g. after round())" if any(U is not None for U in mask.Us) else "plain TT"))
+        if name == "weighting tensor":
+            lc = mask.cores[-1]
+            mextra = "; mask = weighting tensor in a hybrid format, last mask core " + (
+                "TT" if lc.dim() == 3 else ("CP of rank 1" if lc.shape[-1] == 1 else "CP of rank > 1"))
+        else:
+            mextra = "; mask " + ("with Tucker factors (e.g. after round())" if any(U is not None for U in mask.Us) else "plain TT")
         ctx.count("mask:" + name)
         exp = weighted(tab) / var
+
+        def diag(normalize=True, e=exp, sc=1.0):
+            """names the class only: if the same call passes with a plain-TT copy of the mask, the mask's format is the predicate"""
+            if name != "weighting tensor" and not any(U is not None for U in mask.Us):
+                return pcls + mextra
+            r = with_dd(dd, lambda: safe(lambda: as_np(tn.sobol(tt, tn.Tensor(torch.tensor(np.asarray(tab, dtype=np.float64))),
+                                                                marginals=to_torch_marginals(case["marginals"]), normalize=normalize))))
+            return mextra[2:] if (r[0] == "ok" and agrees(r[1], np.asarray(e, dtype=np.float64), sc)) else pcls + mextra
+
         got = call("sobol", lambda marg: tn.sobol(tt, mask, marginals=marg), mextra)
-        if check("sobol", got, exp, mextra):
+        if check("sobol", got, exp, mextra, pred=diag):
             vals[name] = float(num(got))
             if is01 and not (-tol <= vals[name] <= 1 + tol):
                 fail("sobol", "index of a 0/1 mask outside [0,1]: %r" % vals[name], pcls + mextra)
         if name in ("formula", "weight(N)", "weighting tensor"):
             got = call("sobol(normalize=False)", lambda marg: tn.sobol(tt, mask, marginals=marg, normalize=False), mextra)
-            if got is not None:
-                g = num(got)
-                e = weighted(tab)
-                if g.shape != () or not abs(float(g) - e) <= tol * max(scale ** 2, abs(e)):
-                    fail("sobol(normalize=False)", "got %s, brute-force value %r" % (g, e), pcls + mextra)
+            e2 = weighted(tab)
+            check("sobol(normalize=False)", got, e2, mextra, pred=lambda: diag(False, e2, scale ** 2), sc=scale ** 2)
     # corollaries on the implementation's own values
     if all(n in vals for n in ("formula", "formula2 & ~formula", "formula | (formula2 & ~formula)")):
         if abs(vals["formula"] + vals["formula2 & ~formula"] - vals["formula | (formula2 & ~formula)"]) > 3 * tol:
